@@ -117,12 +117,15 @@ func (s *Scheduler) tell(receiver vivid.ActorRef, message vivid.Message, options
 // scheduleJob 注册任务并调度，将 reference 与 jobKey 记入 jobKeys 供 Exists/Cancel 使用
 func (s *Scheduler) scheduleJob(receiver vivid.ActorRef, message vivid.Message, opts *vivid.ScheduleOptions, trigger quartz.Trigger, logKind string, logFields ...any) error {
 	jobKey := uniqueJobKey(s.ctx, opts.Reference)
-	s.jobKeys[opts.Reference] = jobKey
 	fn := job.NewFunctionJob(func(ctx context.Context) (any, error) {
 		s.tell(receiver, message, opts)
 		return nil, nil
 	})
-	_ = s.scheduler.Schedule(quartz.NewJobDetail(fn, jobKey), trigger)
+	// 调度失败（例如该引用下已有尚未结束的任务）必须报告给调用方：此前错误被丢弃并返回 nil，新任务永远不会触发
+	if err := s.scheduler.Schedule(quartz.NewJobDetail(fn, jobKey), trigger); err != nil {
+		return schedulerErrorConvert(err)
+	}
+	s.jobKeys[opts.Reference] = jobKey
 	base := []any{log.String("ref", s.ctx.Ref().GetPath()), log.String("receiver", receiver.GetPath()), log.String("messageType", fmt.Sprintf("%T", message))}
 	logKindStr := fmt.Sprintf("scheduler %s scheduled", logKind)
 	s.ctx.Logger().Debug(logKindStr, append(base, logFields...)...)
